@@ -219,9 +219,22 @@ def arr_term(a):
     return F1.dt.mk(a.obj.shape[0], a.obj.elems)
 
 
+def _objective_clause(c, pt, f0, has, val):
+    from pyvc.values import SV
+
+    if f0 is None:
+        return z3.Not(has)
+    if isinstance(f0, SV) and isinstance(f0.ty, TOpt):
+        nm = c.old.self.objective_name
+        return f0.term == z3.If(has, OF1.dt.some(POINT.acc(1)(pt)[nm]), OF1.dt.none)
+    return z3.And(has, f0 == val)
+
+
 def reported_point_consistent(c, x_opt, f0, c_opt, c_grad, upto=None):
     """(x, f, c, g) are the values recorded for one feasible recorded point: x is its key, f its objective, and the
-    reported constraint values / gradients are the recorded ones of the first `upto` (default: all) constraints."""
+    reported constraint values / gradients are the recorded ones of the first `upto` (default: all) constraints.
+    f0: the reported objective as a real term, or None when no objective is reported (then the point has none recorded),
+    or an SV of type Optional[array] (then it is the recorded lookup)."""
     D, cons = hist(c)
     key = HNd.dt.mk(arr_term(x_opt))
     pt = D.vals[key]
@@ -235,7 +248,7 @@ def reported_point_consistent(c, x_opt, f0, c_opt, c_grad, upto=None):
     return [
         ("is-a-recorded-point", D.member[key]),
         ("is-feasible", feasible(cons, pt)),
-        ("objective-is-the-recorded-one", z3.And(has, f0 == val)),
+        ("objective-is-the-recorded-one", _objective_clause(c, pt, f0, has, val)),
         ("constraint-values-are-the-recorded-ones", z3.ForAll([m], z3.Implies(z3.And(0 <= m, m < top), z3.And(c_opt.has(nm), c_opt.vals[nm] == lookup(nm))))),
         ("constraint-gradients-are-the-recorded-ones", z3.ForAll([m], z3.Implies(z3.And(0 <= m, m < top), z3.And(c_grad.has(nm), c_grad.vals[nm] == lookup(grad_name(nm)))))),
     ]
@@ -249,14 +262,24 @@ def _opt_inv(c, k):
     has_j, val_j = obj_of(c, fs.elems[j])
     rng = z3.And(0 <= j, j < k)
     base = [("listing-kept", z3.And(*[f for _, f in feasible_listing(c, c.locals["feas_x"], fs, hist(c)[0].n)]))]
-    if isinstance(f_opt, float):  # still the initial +inf: no feasible point with an objective value so far
-        return base + [("nothing-selected-yet", z3.ForAll([j], z3.Implies(rng, z3.Not(has_j)))),
-                       ("empty-reports", z3.And(c.locals["c_opt"].n == 0, c.locals["c_opt_grad"].n == 0, c.locals["x_opt"].obj.shape[0] == 0))]
+    flag = c.locals["has_objective_value"]
+    flag = flag if z3.is_expr(flag) else z3.BoolVal(flag)
+    if isinstance(f_opt, float):  # still the initial +inf: no feasible point with an objective value so far, the first feasible point is the candidate
+        cand = [(f"candidate:{l}", f) for l, f in reported_point_consistent(c, c.locals["x_opt"], None, c.locals["c_opt"], c.locals["c_opt_grad"])
+                if l != "objective-is-the-recorded-one"]
+        F = hist(c)[1]._functions
+        m = z3.Int("m!ck")
+        nm = CONS.accessor("name")(F.elems[m])
+        # (names the key at position m of both reports, so that the facts about the two comprehensions are instantiated at m)
+        keys = ("candidate-reports-list-the-constraints-in-order",
+                z3.ForAll([m], z3.Implies(z3.And(0 <= m, m < F.n), z3.And(c.locals["c_opt"].keys[m] == nm, c.locals["c_opt_grad"].keys[m] == nm)), patterns=[F.elems[m]]))
+        return base + [("nothing-selected-yet", z3.ForAll([j], z3.Implies(rng, z3.Not(has_j)))), ("flag", z3.Not(flag)),
+                       ("candidate-is-the-first-feasible-point", arr_term(c.locals["x_opt"]) == c.locals["feas_x"].elems[0]), keys] + cand
     if z3.is_expr(f_opt):
         # the objective was replaced by its norm: only for recorded objectives with several components (excluded by the precondition)
         return base + [("vector-objective-is-excluded-by-precondition", z3.BoolVal(False))]
     f0 = f_opt.obj.elems[0]
-    return base + [("best-so-far", z3.ForAll([j], z3.Implies(z3.And(rng, has_j), f0 <= val_j))), ("size-one", f_opt.obj.shape[0] == 1)] + \
+    return base + [("best-so-far", z3.ForAll([j], z3.Implies(z3.And(rng, has_j), f0 <= val_j))), ("size-one", f_opt.obj.shape[0] == 1), ("flag", flag)] + \
         reported_point_consistent(c, c.locals["x_opt"], f0, c.locals["c_opt"], c.locals["c_opt_grad"])
 
 
@@ -297,7 +320,7 @@ class Optimum(Contract):
     loops = {
         0: LoopSpec(anchor="enumerate(feas_f)", modifies=("c_opt", "c_opt_grad"), inv=_opt_inv,
                     local_types={"c_opt": COPT, "c_opt_grad": COPT, "f_opt": [float("inf"), F1], "x_opt": F1, "obj_value": OF1, "c_name": TStr, "c_key": TStr,
-                                 "constraint": CONS}),
+                                 "constraint": CONS, "has_objective_value": TBool}),
         1: LoopSpec(anchor="constraints", modifies=("c_opt", "c_opt_grad"), inv=_copt_inv, local_types={"c_name": TStr, "c_key": TStr}),
     }
 
@@ -318,31 +341,30 @@ class Optimum(Contract):
         p = z3.Const("p!sf", HNd.sort())
         return z3.Exists([p], z3.And(D.member[p], feasible(cons, D.vals[p]), D.pos[p] >= 0, cnt_feas(D.pos[p] + 1) >= 1))
 
-    def finding_regions(self, c):
-        D, cons = hist(c)
-        i = z3.Int("i!fr")
-        return {"no-feasible-point-has-an-objective-value":
-                z3.ForAll([i], z3.Implies(z3.And(0 <= i, i < D.n, feasible(cons, D.vals[D.keys[i]]), cnt_feas(i + 1) >= 1, cnt_feas(i) >= 0),
-                                          z3.Not(obj_of(c, D.vals[D.keys[i]])[0])))}
-
     def ensures(self, c):
         D, cons = hist(c)
         r = c.result
         some = self.some_feasible(c)
         out = [("feasible-flag", r.is_feasible == some)] if not isinstance(r.is_feasible, bool) else [("feasible-flag", z3.BoolVal(r.is_feasible) == some)]
         if r.is_feasible is True:
+            from pyvc.values import SV
+
             f = r.objective
-            if isinstance(f, float):
-                # +inf reported: no recorded point was selected at all
-                out.append(("reported-point-is-a-recorded-point", z3.BoolVal(False)))
+            if f is None or (isinstance(f, SV) and isinstance(f.ty, TOpt)):
+                # no feasible point has an objective value: the first feasible point is reported, with what is recorded for it
+                f0, val0 = f, None
+            elif isinstance(f, float):
+                f0, val0 = None, None
+                out.append(("reported-objective-is-a-recorded-value", z3.BoolVal(False)))  # a float literal is never a recorded value
             else:
-                f0 = f if z3.is_expr(f) else f.obj.elems[0]
-                for label, cl in reported_point_consistent(c, r.design, f0, r.constraints, r.constraint_jacobian):
-                    out.append((f"reported:{label}", cl))
-                p = z3.Const("p!best", HNd.sort())
-                has_p, val_p = obj_of(c, D.vals[p])
-                out.append(("no-better-feasible-point", z3.ForAll([p], z3.Implies(z3.And(D.member[p], feasible(cons, D.vals[p]), has_p, D.pos[p] >= 0, cnt_feas(D.pos[p] + 1) >= 1,
-                                                                                             cnt_feas(D.pos[p]) >= 0), f0 <= val_p))))
+                f0 = val0 = f if z3.is_expr(f) else f.obj.elems[0]
+            for label, cl in reported_point_consistent(c, r.design, f0, r.constraints, r.constraint_jacobian):
+                out.append((f"reported:{label}", cl))
+            p = z3.Const("p!best", HNd.sort())
+            has_p, val_p = obj_of(c, D.vals[p])
+            better = z3.BoolVal(False) if val0 is None else val0 <= val_p  # without a reported objective value, no feasible point may have one
+            out.append(("no-better-feasible-point", z3.ForAll([p], z3.Implies(z3.And(D.member[p], feasible(cons, D.vals[p]), has_p, D.pos[p] >= 0, cnt_feas(D.pos[p] + 1) >= 1,
+                                                                                         cnt_feas(D.pos[p]) >= 0), better))))
         return out
 
 
